@@ -111,6 +111,9 @@ def run(ctx, rep):
     _pops = evict.find_pops(ctx.lib, _PE(ctx.lib))
     evict.presence(ctx.lib, rep, 'C02.9', _pops)
     evict.report(ctx.lib, rep, 'C02.10', _pops)
+    # a block of a top table written to another place of the file: the reopened device reads stale entries there
+    from . import c05 as _c05
+    _c05.partial_write_rule(ctx.lib, _PE(ctx.lib), rep, 'C02.11')
     d = c04.common(ctx, rep)
     if getattr(d, 'flag_invariant_used', False):
         rep.assume('need_flush read as false while the flush mutex is held means that no metadata is dirty only in RAM '
